@@ -23,7 +23,7 @@ from ..gen import c02_store as ST
 from . import C01 as P1
 
 PID = "C02"
-COQ_HEADER = ("From Coq Require Import List NArith ZArith.\nFrom SK Require Import lib.Tok lib.LGraph model.C01_Model model.C01_Opts model.C02_Model model.C02_Store model.C02_Api.\n"
+COQ_HEADER = ("From Coq Require Import List NArith ZArith.\nFrom SK Require Import lib.Tok lib.LGraph model.C01_Model model.C01_Opts model.C01_String model.C02_Model model.C02_Store model.C02_Api.\n"
               "Import ListNotations.\nOpen Scope Z_scope.\n")
 SHARD = 450
 IMPL_TIMEOUT = 1500
@@ -363,6 +363,13 @@ def oracle_S(case):
         if not HS.graph_eq(I, _build_S(case)):
             fails.append(dict(clause="opt-input-mutated", detail="%s: get_rc changed its input graph" % tag))
         fails += _store_twin_clause(case, tag, rc, keys, disc, keep)
+        if disc == keep:
+            # renumbering the atoms yields the renumbered centre (theorem C02_rcS_equivariant), whatever the label shapes
+            import networkx as nx
+            pi = {n: 3 * n + 101 for n in I.nodes}
+            rcJ = get_rc(nx.relabel_nodes(_build_S(case), pi, copy=True), element_key=list(keys), disconnected=disc, keep_mtg=keep)
+            if not HS.graph_eq(rcJ, nx.relabel_nodes(rc, pi, copy=True)):
+                fails.append(dict(clause="centre-renumbering", detail="%s: the centre of the renumbered ITS (n -> 3n+101) is not the renumbered centre" % tag))
         if fails:
             return fails[:3]
     I = _build_S(case)
@@ -403,9 +410,48 @@ def _obs_dict(d):
     return [[E.elem_code(k), ([1, E._int(v)] if isinstance(v, int) and not isinstance(v, bool) else [0, E.obs_its(v)])] for k, v in d.items()]
 
 
+PASSES = ("_add_changed_bonds", "_add_hh_bonds", "_add_charge_change_nodes", "_reconnect_rc_edges")
+TRUTH_STDS = (0, 0.0, 0.5, -0.5, 1, -1, 1.5, 2, -2.0, 3)
+TRUTH_ELS = ("H", "C", "", "*", "He", ("H", "H"), ("H", "C"), ("C", "H"), ("C", "C"), ("*", "*"))
+
+
+def _has_passes():
+    import importlib
+    D = importlib.import_module("synkit.Graph.ITS.its_decompose")
+    return all(callable(getattr(D, f, None)) for f in PASSES + ("_should_include_edge", "_is_hydrogen"))
+
+
+def _obs_state(rc):
+    o = X.obs_xits(rc)
+    return [list(o[0]["__set__"]), o[1]]          # atoms in rc.nodes order, bonds as a set
+
+
 def impl_api(case):
     from synkit.Graph.Context.radius_expand import RadiusExpand
     from ..tok import S
+    if "steps" in case or "truth" in case:
+        # the private helpers named in the property's anchors, one by one (a tree without them: nothing to compare)
+        if not _has_passes():
+            return ["helpers-missing"]
+        import importlib
+        D = importlib.import_module("synkit.Graph.ITS.its_decompose")
+        if "truth" in case:
+            return [[[D._should_include_edge(s_, fl, keep) for keep in (False, True) for fl in (False, True)] for s_ in TRUTH_STDS],
+                    [D._is_hydrogen(e) for e in TRUTH_ELS]]
+        import networkx as nx
+        I = E.to_nx(case["X"])
+        keys = list(case["keys"])
+        rc = nx.Graph()
+        out = []
+        D._add_changed_bonds(I, rc, keys, "order", "standard_order", case["keep"])
+        out.append(_obs_state(rc))
+        D._add_hh_bonds(I, rc, keys, "order", "standard_order")
+        out.append(_obs_state(rc))
+        D._add_charge_change_nodes(I, rc, keys)
+        out.append(_obs_state(rc))
+        D._reconnect_rc_edges(I, rc, "order", "standard_order")
+        out.append(_obs_state(rc))
+        return out
     if "nn" in case:
         import networkx as nx
         I = E.to_nx(case["I"])
@@ -433,6 +479,13 @@ def _coq_dict(D):
 
 
 def coq_api(case):
+    if "steps" in case or "truth" in case:
+        if not _has_passes():
+            return None
+        if "truth" in case:
+            els = "; ".join(("(Pr %d%%N %d%%N)" % (E.elem_code(e[0]), E.elem_code(e[1]))) if isinstance(e, tuple) else "(Sc %d%%N)" % E.elem_code(e) for e in TRUTH_ELS)
+            return "run_truth [%s] [%s]" % ("; ".join("(%d)" % E.half(s_) for s_ in TRUTH_STDS), els)
+        return "run_steps %s %s %s" % (X.coq_keys(case["keys"]), E.cb(case["keep"]), X.coq_xits(case["X"]))
     if "nn" in case:
         return "run_fnn %s [%s] [%s]" % (E.coq_its(case["I"]), "; ".join(E.cN(n) for n in case["nn"]), "; ".join("(%d)" % k for k in case["ks"]))
     ik, ck = E.elem_code(case["its_key"]), E.elem_code(case["ctx_key"])
@@ -452,6 +505,11 @@ def oracle_api(case):
     reference on graphs of a recognised class); direct find_nearest_neighbors: the ball around ANY start atoms of the graph"""
     from synkit.Graph.Context.radius_expand import RadiusExpand
     fails = []
+    if "truth" in case:
+        return []
+    if "steps" in case:
+        # the stepwise construction ends in get_rc(disconnected=True) and passes through get_rc(disconnected=False) — judged by oracle_x
+        return oracle_x(dict(kind=case["kind"], X=case["X"], keys=case["keys"]))
     if "nn" in case:
         I = E.to_nx(case["I"])
         if any(n not in I for n in case["nn"]):
@@ -538,6 +596,8 @@ def impl_wrap(case):
     w = case["wrap"]
     if w == "rsmi_to_its":
         from synkit.IO.chem_converter import rsmi_to_its
+        if case.get("eh"):
+            return E.obs_its(rsmi_to_its(case["rsmi"], core=True, explicit_hydrogen=True))
         return E.obs_its(rsmi_to_its(case["rsmi"], core=case["core"]))
     if w == "implicit_rule":
         from synkit.Rule.Modify.implict_rule import implicit_rule
@@ -605,6 +665,9 @@ def coq_case(case):
             if G is None or H is None:
                 return None
             lg, lh = E.coq_mgraph(E.from_nx(G)), E.coq_mgraph(E.from_nx(H))
+            if w == "rsmi_to_its" and case.get("eh"):
+                # rsmi_to_its(core=True, explicit_hydrogen=True): the centre of the explicit-hydrogen ITS (h_to_explicit: C01's model, read-only)
+                return "tits (get_rc (fst (C01_String.h_to_explicit_its (its_construct %s %s))))" % (lg, lh)
             if w == "rsmi_to_its":
                 return "tits (%s(its_construct %s %s))" % ("get_rc " if case["core"] else "", lg, lh)
             return "txits (get_rc_x K_default %s false (emb (its_construct_ab false %s %s %s)))" % (E.cb(case["disc"]), E.cb(case["bal"]), lg, lh)
@@ -1096,6 +1159,17 @@ def oracle_wrap(case):
     G, H = _wrap_graphs(case)
     if G is None or H is None:
         return []
+    if w == "rsmi_to_its" and case.get("eh"):
+        # the explicit-hydrogen ITS is an ITS like any other: its core is its centre, and the centre clauses hold on it
+        from synkit.IO.chem_converter import rsmi_to_its
+        I = rsmi_to_its(case["rsmi"], core=False, explicit_hydrogen=True)
+        got = rsmi_to_its(case["rsmi"], core=True, explicit_hydrogen=True)
+        if not HS.graph_eq(got, get_rc(I)):
+            fails.append(dict(clause="wrapper-rsmi_to_its", detail="rsmi_to_its(core=True, explicit_hydrogen=True) is not get_rc of rsmi_to_its(explicit_hydrogen=True)"))
+        cls = its_class(I)
+        if cls is not None:
+            fails += centre_clauses(I, cls)[0]
+        return fails[:3]
     if w == "rsmi_to_its":
         from synkit.IO.chem_converter import rsmi_to_its
         got = rsmi_to_its(case["rsmi"], core=case["core"])
@@ -1597,6 +1671,7 @@ def gen_wrappers(rng, tier):
     for s_, i, r in rng.sample(corpus, 24 if q else 100):
         src = "%s#%d" % (s_, i)
         cases.append(dict(kind="wrap-core", wrap="rsmi_to_its", rsmi=r, core=rng.random() < 0.8, src=src))
+        cases.append(dict(kind="wrap-core-eh", wrap="rsmi_to_its", rsmi=r, core=True, eh=True, src=src))
         # synkit.Rule.Modify.implict_rule.implicit_rule is not importable on the unchanged tree (ImportError: remove_explicit_H_from_rsmi
         # is not exported by synkit.Chem.Reaction), so that wrapper cannot be exercised; its body is get_rc(ITSGraph(r, p, balance_its=...),
         # disconnected=...), which the option populations cover.  (impl_wrap / oracle_wrap keep the branch for the day it is repaired.)
@@ -1753,6 +1828,12 @@ def gen_api(rng, tier):
             seeds.append(seeds[0])
         ks = rng.sample([-2, -1, 0, 1, 2, 3, 5], 3)
         cases.append(dict(kind="api-nn", api=True, I=g, nn=seeds, ks=ks))
+    for _ in range(150 if q else 800):
+        cases.append(dict(kind="api-steps", api=True, steps=True, X=X.canon(X.rand_x(rng, rng.randint(2, 9))), keys=list(rng.choice(X.KEY_CHOICES)), keep=rng.random() < 0.5))
+    for g in X.gen_x_exhaustive():
+        if len(g["nodes"]) == 2 and rng.random() < (0.25 if q else 1.0):
+            cases.append(dict(kind="api-steps", api=True, steps=True, X=X.canon(g), keys=list(rng.choice(X.KEY_CHOICES)), keep=rng.random() < 0.5))
+    cases.append(dict(kind="api-truth", api=True, truth=True, name="api/truth-tables"))
     for c in gen_random_its(rng, 60 if q else 300, "its-rand", maxn=9):
         cases.append(dict(kind="help-neg", I=c["I"], helpers=[rng.choice((-2, -3, -17)), 0, 1]))
     return cases
